@@ -579,7 +579,8 @@ def ifexp_assignments_to_if(fn):
             if tgt is not None and isinstance(tgt, ast.Name):
                 a = ast.copy_location(ast.Assign(targets=[ast.Name(id=tgt.id, ctx=ast.Store())], value=val.body), st)
                 b = ast.copy_location(ast.Assign(targets=[ast.Name(id=tgt.id, ctx=ast.Store())], value=val.orelse), st)
-                out.append(ast.copy_location(ast.If(test=val.test, body=[a], orelse=[b]), st))
+                # chained conditional expressions: the branches are converted in turn
+                out.append(ast.copy_location(ast.If(test=val.test, body=do_block([a]), orelse=do_block([b])), st))
             else:
                 out.append(st)
         return out
